@@ -61,6 +61,15 @@ CHECKS = {
         "(pass.chain invariant) so only alignment/padding zeros lie between items; operands are final at the fixed point (C05 exit lemma).",
    note="Trusted: as C05; text rendering by boost::format/std::to_string is dropped (the tuple of printed values is compared). xcmp -S / hexasm --instrs entry points are text-checked to print through emitProgramText.",
    technique="CBMC contract harness on mechanically extracted C (shared with C05); native replay compares real listings with real images"),
+ "C15": dict(cat="proof", design="DESIGN.md §4 C15",
+   text="Mechanisms proved: (1) with tracing on and the real trace(), the extracted run() loop body prints (instruction count before the step, byte address fetched, symbol and pc-offset, "
+        "mnemonic of the fetched opcode, byte&0xF) and then executes exactly that instruction (== isa_step), for all states; (2) lookupSymbol under a function + loop contract over a table of "
+        "symbolic length (no out-of-bounds read; returns an entry with offset<=pc<next offset, none below the first); with non-decreasing offsets it is the last entry at or below pc; "
+        "(3) emitProgramBin records one symbol per FUNC/PROC with the address of the next emitted byte. The corollary 'procedure entries in a trace equal the source call sequence' "
+        "needs compiler correctness (C01) and is assumed, not claimed.",
+   note="Trusted: CBMC+MiniSat, extractor rules, EV_FMT/EV_ARG abstraction of boost::format, unique symbol names for debugInfoMap, instrEnumToStr table. The symbol-table round trip "
+        "through the binary file (emitDebugInfo / load) is exercised only by the native stage (real hexasm -> real hexsim -t, every trace line checked against an ISA run): sampled, not proved.",
+   technique="CBMC function/loop contracts + contract harness on mechanically extracted C; native trace comparison on the real tools"),
 }
 NA = {
  "C01": "compiler correctness over all X programs: needs an X semantics and a simulation proof over 3200 lines of STL C++ that CBMC cannot parse; no per-function contract expresses it (DESIGN §5)",
@@ -73,7 +82,6 @@ NA = {
 PENDING = {
  "C06": "claimed by design (DESIGN §4); check not built yet in this round",
  "C07": "claimed by design (DESIGN §4); check not built yet in this round",
- "C15": "claimed by design (DESIGN §4); check not built yet in this round",
 }
 def main():
     checks = []
